@@ -59,6 +59,7 @@ CliResult CliEnv::run(const Plan &p, const Bytes &arch) {
 	g_sim.out_buf = (int) p.geti("outbuf", 0);
 	g_sim.write_fail_at = p.geti("write_fail_at", -1);
 	g_sim.write_errno = (int) p.geti("write_errno", 28);
+	g_sim.write_fail_once = (int) p.geti("write_once", 0);
 	bool from_stdin = p.argv.size() > 2 && p.argv[2] == "-";
 	// A-FAIL(k): the k-th allocation made by the tool or the library fails
 	int64_t afail = p.geti("afail", -1);
